@@ -74,7 +74,10 @@ class Ctx:
 
     def executor(self, fl="asan"):
         if fl not in self.ex:
-            root = "/dev/shm/lesim-%d-%s%s-%s" % (os.getpid(), self.tag, self.wid, fl)
+            # fixed-length sandbox root: path lengths (and with them allocation sizes) must not depend on the worker
+            import hashlib
+            h = hashlib.sha1(("%d/%s/%s" % (os.getpid(), self.tag, self.wid)).encode()).hexdigest()[:10]
+            root = "/dev/shm/lesim-%s-%s" % (h, fl[:4])
             env = {"TSAN_OPTIONS": "external_symbolizer_path=/usr/bin/llvm-symbolizer-14", "ASAN_SYMBOLIZER_PATH": "/usr/bin/llvm-symbolizer-14"}
             self.ex[fl] = Executor(self.build.binary(fl), root, env=env)
         return self.ex[fl]
@@ -171,6 +174,14 @@ def _wchunk(args):
         if len(st["samples"]) < 2 and (v.nontrivial or i == start):
             st["samples"].append({"index": i, "seed": world["_seed"], "world": sample_view(world), "plans": len(plans),
                                   "verdict": "ok" if v.ok else v.classes(), "known": [k["id"] for k in v.known]})
+    try:
+        ex = ctx.ex.get("asan")
+        if ex is not None and ex.p is not None and ex.p.poll() is None:
+            cov = ex.command({"cmd": "coverage"})
+            if cov:
+                st["cov"] = {"total": cov["edges_total"], "bitmap": cov["bitmap"]}
+    except Exception:
+        pass
     return st
 
 
@@ -202,6 +213,9 @@ def merge_stats(total, st):
             kn[a]["index"] = min(kn[a]["index"], e["index"])
         else:
             kn[a] = dict(e)
+    if st.get("cov"):
+        c = total.setdefault("cov", {"total": st["cov"]["total"], "bits": 0})
+        c["bits"] |= int(st["cov"]["bitmap"][::-1], 16) if st["cov"]["bitmap"] else 0
     total.setdefault("candidates", []).extend(st["candidates"])
     if len(total.setdefault("samples", [])) < 4:
         total["samples"].extend(st["samples"][:4 - len(total["samples"])])
@@ -449,6 +463,10 @@ def check_main(pid, tier, seed_base, workers=None, runs=None, wall_cap=None):
         ev["coverage"]["switches"] = sc["switches"]
         ev["coverage"]["switches_inside_library_code"] = sc["in_edge"]
         ev["coverage"]["switches_at_libc_or_api_boundary"] = sc["in_wrap"]
+    if total.get("cov"):
+        ev["coverage"]["library_edges_total"] = total["cov"]["total"]
+        ev["coverage"]["library_edges_covered"] = bin(total["cov"]["bits"]).count("1")
+        ev["coverage"]["library_edges_note"] = "trace-pc-guard edges of /repo/lib/*.c in the ASan+UBSan build (includes sanitizer-check edges that only a failing check would take)"
     ev["coverage"].update(extra.get("coverage", {}))
     write_evidence(pid, ev)
     log("%s %s: %d runs (%d plans) in %.1fs, %d distinct non-trivial, violations=%d, known=%s" % (
